@@ -34,6 +34,14 @@ fn main() {
     std::process::exit(2);
   }
   let id = args[1].clone();
+  if id == "RACE" {
+    // hpxmc RACE <property> <variant> [time]: two threads running the property's call alphabet
+    // concurrently; meant to be executed by miri (happens-before race detection), see seq.rs
+    std::panic::set_hook(Box::new(|_| {}));
+    let pid = args.get(2).cloned().unwrap_or_default();
+    let variant: usize = args.get(3).and_then(|a| a.parse().ok()).unwrap_or(0);
+    std::process::exit(seq::race_harness(&pid, variant, args.get(4).map(|a| a == "time").unwrap_or(false)));
+  }
   let mut tier = std::env::var("VERIF_TIER").unwrap_or_else(|_| "quick".to_string());
   let mut config = "release".to_string();
   let mut verif_dir = "/verif".to_string();
